@@ -1,3 +1,185 @@
 package main
 
-func selftest(o options, seeds int) int { die(2, "selftest not built yet"); return 2 }
+import (
+	"crypto/sha256"
+	"encoding/json"
+	"fmt"
+	"os"
+	"path/filepath"
+	"strings"
+)
+
+// selftest establishes, before any verdict is believed, that the simulator is
+// deterministic and that its oracles can fire:
+//
+//  1. determinism: N seeds, each executed in three fresh processes at
+//     GOMAXPROCS 1, 4 and 16, for C10 (every map-range visit with its
+//     permutation, every keyed observation) and for C11 under the race
+//     detector (every switch, fault, sample, exit, per-operation result hash,
+//     race classes). Complete event logs are compared; any difference exits 2.
+//  2. sensitivity of the race oracle: a scratch copy gets one unsynchronised
+//     write to a package-level variable inside validator.Validate. The handoff
+//     between tasks must be invisible to the race detector, so two tasks that
+//     validate must be reported whatever the schedule, and identically in
+//     every repetition.
+//  3. sensitivity of the map-order seam: a scratch copy whose SuggestionList
+//     ranges over its distance map must be reported by C10.
+//
+// Exit 0 = all of it held; 2 = the machinery cannot be trusted.
+func selftest(o options, seeds int) int {
+	builds := prepareAll(prepOpts{instrumented: true, name: "inst"}, prepOpts{instrumented: true, race: true, name: "race"})
+	inst, race := builds[0], builds[1]
+	logf("selftest: built plain and race harness")
+	procs := []int{1, 4, 16}
+	type job struct {
+		prop string
+		seed int
+		gmp  int
+	}
+	var jobs []job
+	for s := 0; s < seeds; s++ {
+		for _, g := range procs {
+			jobs = append(jobs, job{"C10", s, g}, job{"C11", s, g})
+		}
+	}
+	res := runProcs(len(jobs), func(i int) (string, []string, []string, string) {
+		j := jobs[i]
+		of := filepath.Join(scratch, fmt.Sprintf("st-%s-%d-%d.json", j.prop, j.seed, j.gmp))
+		env := []string{fmt.Sprintf("GOMAXPROCS=%d", j.gmp)}
+		if j.prop == "C10" {
+			return inst.bin, []string{"c10", "--seed", fmt.Sprint(1000 + j.seed), "--worker", "0", "--sessions", "24", "--evlog", "--out", of, "--replays", scratch}, env, of
+		}
+		rlog := filepath.Join(scratch, fmt.Sprintf("st-racelog-%d-%d", j.seed, j.gmp))
+		return race.bin, []string{"c11", "--seed", fmt.Sprint(1000 + j.seed), "--worker", "0", "--runs", "5", "--evlog", "--out", of, "--replays", scratch, "--racelog", rlog}, append(env, goraceEnv(rlog)...), of
+	})
+	digest := map[string]string{}
+	lines := map[string]int{}
+	bad := 0
+	for i, r := range res {
+		j := jobs[i]
+		if r.err != nil {
+			die(2, "selftest: %s seed %d GOMAXPROCS=%d failed:\n%s", j.prop, j.seed, j.gmp, tail(r.stderr, 30))
+		}
+		var st struct {
+			Log        []string          `json:"log"`
+			Violations []json.RawMessage `json:"violations"`
+		}
+		if err := readJSONFile(r.file, &st); err != nil {
+			die(2, "selftest: result of %s seed %d: %v", j.prop, j.seed, err)
+		}
+		if len(st.Violations) > 0 {
+			die(2, "selftest: %s seed %d reported a violation on the tree under test; run the check itself first", j.prop, j.seed)
+		}
+		h := sha256.Sum256([]byte(strings.Join(st.Log, "\n")))
+		key := fmt.Sprintf("%s/%d", j.prop, j.seed)
+		hs := fmt.Sprintf("%x", h[:8])
+		lines[j.prop] += len(st.Log)
+		if prev, ok := digest[key]; ok && prev != hs {
+			bad++
+			logf("selftest: NONDETERMINISM %s seed %d: event-log digest %s at GOMAXPROCS=%d differs from %s", j.prop, j.seed, hs, j.gmp, prev)
+		} else {
+			digest[key] = hs
+		}
+	}
+	if bad > 0 {
+		die(2, "selftest: %d executions differed from another execution of the same seed", bad)
+	}
+	logf("selftest: determinism ok: %d seeds x %d processes x {C10,C11}; %d C10 and %d C11 event-log lines compared", seeds, len(procs), lines["C10"], lines["C11"])
+
+	// ---- sensitivity: race oracle / handoff ----
+	probe := func(dir string) error {
+		p := filepath.Join(dir, "validator", "validator.go")
+		b, err := os.ReadFile(p)
+		if err != nil {
+			return err
+		}
+		src := string(b)
+		const anchor = "observers := &Events{}"
+		if !strings.Contains(src, anchor) {
+			return fmt.Errorf("anchor not found")
+		}
+		src = strings.Replace(src, anchor, "verifSelftestProbe++\n\t"+anchor, 1) + "\nvar verifSelftestProbe int\n"
+		return os.WriteFile(p, []byte(src), 0o644)
+	}
+	skipped := []string{}
+	rb := prepareMutated(prepOpts{instrumented: true, race: true, name: "race-probe"}, probe)
+	if rb == nil {
+		skipped = append(skipped, "race-oracle probe (anchor in validator/validator.go not found)")
+	} else {
+		var classes []string
+		for rep := 0; rep < 3; rep++ {
+			of := filepath.Join(scratch, fmt.Sprintf("st-probe-%d.json", rep))
+			rlog := filepath.Join(scratch, fmt.Sprintf("st-probe-racelog-%d", rep))
+			out, err := run(scratch, append(os.Environ(), append(goraceEnv(rlog), fmt.Sprintf("GOMAXPROCS=%d", procs[rep]))...), rb.bin, "c11", "--seed", "77", "--worker", "0", "--runs", "3", "--out", of, "--replays", scratch, "--racelog", rlog, "--known", "race:write@validator.Validate")
+			if err != nil {
+				die(2, "selftest: race probe run failed: %v\n%s", err, tail(out, 20))
+			}
+			var st struct {
+				Violations []struct {
+					Class string `json:"class"`
+				} `json:"violations"`
+			}
+			readJSONFile(of, &st)
+			var cs []string
+			for _, v := range st.Violations {
+				cs = append(cs, v.Class)
+			}
+			classes = append(classes, strings.Join(cs, ","))
+		}
+		if !strings.Contains(classes[0], "race:write@validator.Validate") {
+			die(2, "selftest: an unsynchronised write inside validator.Validate was NOT reported by the race oracle (classes: %q): the task handoff is ordering tasks for the race detector", classes[0])
+		}
+		if classes[0] != classes[1] || classes[1] != classes[2] {
+			die(2, "selftest: race classes differ between repetitions of one seed: %q", classes)
+		}
+		logf("selftest: race oracle fires on the probe, identically in 3 repetitions (%s)", classes[0])
+	}
+
+	// ---- sensitivity: map-order seam ----
+	probe2 := func(dir string) error {
+		p := filepath.Join(dir, "validator", "suggestionList.go")
+		b, err := os.ReadFile(p)
+		if err != nil {
+			return err
+		}
+		src := string(b)
+		const anchor = "sort.Slice(results, func(i, j int) bool {"
+		if !strings.Contains(src, anchor) {
+			return fmt.Errorf("anchor not found")
+		}
+		src = strings.Replace(src, anchor, "results = results[:0]\n\tfor k := range optionsByDistance {\n\t\tresults = append(results, k)\n\t}\n\t"+anchor, 1)
+		return os.WriteFile(p, []byte(src), 0o644)
+	}
+	mb := prepareMutated(prepOpts{instrumented: true, name: "order-probe"}, probe2)
+	if mb == nil {
+		skipped = append(skipped, "map-order probe (anchor in validator/suggestionList.go not found)")
+	} else {
+		of := filepath.Join(scratch, "st-order-probe.json")
+		out, err := run(scratch, nil, mb.bin, "c10", "--seed", "5", "--worker", "0", "--sessions", "400", "--out", of, "--replays", scratch)
+		if err != nil {
+			die(2, "selftest: map-order probe run failed: %v\n%s", err, tail(out, 20))
+		}
+		var st struct {
+			Violations []struct {
+				Class string `json:"class"`
+			} `json:"violations"`
+		}
+		readJSONFile(of, &st)
+		if len(st.Violations) == 0 {
+			die(2, "selftest: a suggestion list assembled by ranging over a map was NOT reported within 400 sessions")
+		}
+		logf("selftest: map-order seam fires on the probe (%s)", st.Violations[0].Class)
+	}
+	for _, s := range skipped {
+		logf("selftest: skipped %s", s)
+	}
+	fmt.Printf("selftest ok: %d seeds x 3 processes (GOMAXPROCS 1/4/16) x {C10, C11 under -race} with identical event logs; oracle probes fired\n", seeds)
+	return 0
+}
+
+// prepareMutated is prepare with a source edit applied to the scratch copy
+// before instrumentation. Returns nil when the edit does not apply.
+func prepareMutated(o prepOpts, edit func(dir string) error) *build {
+	o.edit = edit
+	return prepare(o)
+}
